@@ -78,6 +78,38 @@ class TS:
             sum(self.cells[i].width for i in self.srports) + \
             sum(self.cells[i].width * self.cells[i].depth for i in self.mems if self.wports.get(i))
         self._names = None
+        self.selfref = self._selfref_cells()
+
+    def _selfref_cells(self):
+        """AssignmentList cells lying on a cell-level combinational cycle (e.g. `x[11:16].eq(f(x[0:11]))`:
+        acyclic per bit, cyclic per cell).  They are evaluated bit by bit."""
+        cells = self.cells
+        comb = {}
+        for i, c in enumerate(cells):
+            if i == 0 or isinstance(c, (nir.FlipFlop, nir.SyncReadPort, nir.Memory, nir.SyncWritePort, nir.Top)):
+                continue
+            try:
+                nets = c.input_nets()
+            except Exception:
+                continue
+            comb[i] = {n.cell for n in nets if not n.is_const and n.cell != 0}
+        # cells reachable from themselves: iterative Tarjan-free check restricted to AssignmentLists
+        out = set()
+        for i, c in enumerate(cells):
+            if not isinstance(c, nir.AssignmentList) or i not in comb:
+                continue
+            seen = set()
+            stack = list(comb[i])
+            while stack:
+                j = stack.pop()
+                if j == i:
+                    out.add(i)
+                    break
+                if j in seen or j not in comb:
+                    continue
+                seen.add(j)
+                stack.extend(comb[j])
+        return out
 
     # ---- descriptions
     def describe(self):
@@ -177,10 +209,29 @@ class Frame:
             return bv(n.const, 1)
         return self._slice(n.cell, n.bit, 1)
 
+    def _abit(self, c, b):
+        """one bit of a self-referential AssignmentList cell: priority chain of the assignments covering it"""
+        key = ("bit", c, b)
+        r = self.xcache.get(key)
+        if r is not None:
+            return r
+        cell = self.ts.cells[c]
+        cur = self.net(cell.default[b])
+        for a in cell.assignments:
+            if a.start <= b < a.start + len(a.value):
+                cur = z3.If(self.net(a.cond) == 1, self.net(a.value[b - a.start]), cur)
+        self.xcache[key] = cur
+        return cur
+
     def _slice(self, c, lo, w):
         key = (c, lo, w)
         r = self.xcache.get(key)
         if r is not None:
+            return r
+        if c in self.ts.selfref:
+            bits = [self._abit(c, lo + k) for k in range(w)]
+            r = bits[0] if w == 1 else z3.Concat(*reversed(bits))
+            self.xcache[key] = r
             return r
         if c == 0:
             src, sb = self.topbits[lo]
@@ -224,6 +275,8 @@ class Frame:
         return z3.Concat(*reversed(chunks))
 
     def cell(self, idx):
+        if idx in self.ts.selfref:
+            return self._slice(idx, 0, len(self.ts.cells[idx].default))
         r = self.cache.get(idx)
         if r is None:
             r = self._eval(idx, self.ts.cells[idx])
